@@ -196,6 +196,13 @@ def run_annotate(ctx, path, raw, label):
     for size in sorted({1, 2, max(nb - 1, 1), nb, nb + 1, 2 * nb}):
         if stored:
             sels.append([rng.choice(stored) for _ in range(size)])
+    # pixel frames are the caller's: not only stored upper-triangular records, also pairs with bin2_id < bin1_id (square
+    # storage, a matrix row, a user-built frame) — few of them, so that the "fewer pixels than bins" strategy is taken
+    if nb >= 2:
+        sels.append([(900, nb - 1, 0, 7)])
+        sels.append([(910 + j, nb // 2, j, 3 + j) for j in range(nb)][: max(nb - 1, 1)])          # one matrix row, left to right
+        sels.append([(930, nb - 1, nb - 2, 5), (931, nb - 1, 0, 6)])
+        sels.append([(940 + k, rng.randrange(nb), rng.randrange(nb), 1 + k) for k in range(max(nb - 2, 1))])
     exprs, pending = [], []
     id_dtypes = [np.int64, np.int32, np.uint32, np.uint16, np.int64]
     for si, px in enumerate(sels):
